@@ -8,7 +8,9 @@ from contracts import centroiders
 def build(chk):
     chk.assumptions_used.update(["A-REAL", "A-NP"])
     centroiders.obligations(chk)
-    chk.bounded_native("brightest_pixel: single pixel, stack = frame, positive scaling (numpy.sort order statistics are outside the encoding)", "brightest", "stacks 3x6x8 and 4x5x5, fractions 0.1, 0.3, 0.75", "aotools/image_processing/centroiders.py:brightest_pixel")
+    centroiders.brightest_obligations(chk)
+    centroiders.brightest_scale_obligations(chk)
+    chk.bounded_native("brightest_pixel: single bright pixel and integer-typed frames (the VALUE of the numpy.sort order statistic is uninterpreted: 'stack item = frame alone' and 'unchanged by positive scaling' are proved, the latter with the homogeneity of order statistics as a library contract); stacks with 1-3 leading axes as the IEEE bridge of that proved clause", "brightest", "stacks 3x6x8, 4x5x5, 2x3x5x6, 3x3x5x5, 2x2x2x4x5, fractions 0.1 .. 0.75", "aotools/image_processing/centroiders.py:brightest_pixel")
     chk.bounded_native("shift equivariance of centre_of_gravity / brightest_pixel", "shift", "16x18 frames, shifts (0,0),(3,2),(1,5)", "aotools/image_processing/centroiders.py:centre_of_gravity,brightest_pixel")
     chk.bounded_native("correlation centroid: displaced by s from the array centre for any padding", "correlation", "even shapes 10x10, 10x16, 12x8 (padding 1..3) and odd shapes 9x9, 11x7, 9x12, 7x10 (padding 1..4), three displacements", "aotools/image_processing/centroiders.py:correlation_centroid,cross_correlate")
     chk.notes.append("requires for the scale / stack clauses: the image sum is non-zero (division), threshold in (0,1), min_threshold >= 0 scaled with the image")
